@@ -37,12 +37,12 @@ class Harness:
             self.paths += 1
             yield p, res, exc
 
-    def claim(self, cond, key, what, case_fn):
+    def claim(self, cond, key, what, case_fn, robust=()):
         """prove cond under the path condition; on a model record a violation.
         Returns True when the claim holds."""
         self.obligations += 1
         try:
-            m = core.prove(cond, what)
+            m = core.prove(cond, what, robust)
         except core.Inconclusive:
             self.inconclusive.append({'key': key, 'what': what})
             return False
